@@ -62,12 +62,12 @@ CHECKS.update({
               "connection of a family of server archetypes. Conformance: byte-level refinements of those faults (truncation, length fields, types, random bytes, "
               "debug/pre-banner/segmentation) are injected at every message of three archetype transcripts, the real CLI is run, the direct clauses are checked "
               "and the recorded network trace is validated by TLC against TraceAudit.tla, which infers the failing read and evaluates every invariant at every step. "
-              "The same machine covers SSH-1 peers (fallback and -1), peers refusing both versions and client audits (-c), each with its own fault family."),
+              "The same machine covers SSH-1 peers (fallback and -1), peers refusing both versions and client audits (-c), each with its own fault family. Faults in the connection-rate check, enormous group-exchange moduli, make-policy under probe faults, debug messages with arbitrary bodies."),
         design='8 C09, 14.2', note=AUDIT_NOTE, technique='TLC model checking (safety + liveness) of SshAudit.tla; fault-injected runs validated as traces against TraceAudit.tla'),
     'C11': dict(category='model_checking',
         text=("Thresholds, monotonicity and RSA-family fan-out are operators/invariants of SshRating.tla (SizeMonotone, Thresholds) and SshAudit.tla (RsaFanOut, one "
               "probe per family) checked by TLC; the expected size suffix, notes and JSON fields of every measured case come from TLC, the presented blobs from an "
-              "independent encoder, fingerprints from hashlib (outside TLA+); the probing runs are validated as traces against TraceAudit.tla."),
+              "independent encoder, fingerprints from hashlib (outside TLA+); the probing runs are validated as traces against TraceAudit.tla. A sequence leg audits several servers in one run and compares each server's host-key lines and fingerprints with its single-target audit."),
         design='8 C11, 9', note=AUDIT_NOTE + '; RSA sizes are multiples of 16 bits; hash values via hashlib', technique='TLC-evaluated rating rule as oracle + trace validation of the probe pattern'),
     'C12': dict(category='model_checking',
         text=("SshAudit!GexProbe mirrors the probe loop against Group(moduli, style); TLC explores all 9216 servers (512 subsets x 3 styles x 2 banners x 3 algorithm "
@@ -114,7 +114,7 @@ CHECKS.update({
               "JSON including the exit status. SshPolicyFile models the loader line by line (one Step per line, Finish for name/version): TLC enumerates files of line "
               "tokens (both generations of size directives, flags, comments, refusing lines), checks CommentsAreInert, FirstErrorWins, IndependentLinesCommute, "
               "NamedAndVersioned, FlagsOnlyRise and emits the loaded object; every file is written out, loaded by Policy(policy_data=..) and compared field by field, "
-              "a sample through -P (refused => error status and no connection)."),
+              "a sample through -P (refused => error status and no connection). A combination mode of SshPolicy enumerates two host-key types x two group-exchange algorithms x {unlisted, not offered, equal, larger, smaller} x the larger-keys flag next to matching and mismatching list fields (the code folds one verdict over all fields)."),
         design='8 C06', note='TLC; policies are rendered as policy-file text by the harness; in-process peers are SSH2_Kex objects with recorded host keys/moduli', technique='exhaustive per-field TLC enumeration of (policy, peer) pairs replayed into Policy.evaluate and the CLI'),
 })
 
@@ -127,7 +127,7 @@ CHECKS.update({
               "SSH-1 messages are round-tripped against the independent codec. The functions are pure: the assurance is the replay of TLC's enumeration. "
               "The reader over a TCP stream is a state machine of its own (SshStream.tla: Recv/Take per ensure_read, SSH-2 and SSH-1 framing): TLC checks Aligned, "
               "NoOverread, AllReturned and Terminates for every packet sequence and every segmentation with up to two cuts, and each case is replayed into read_packet. "
-              "The framing arithmetic for every payload length (not only 0..4096) is a TLAPS theorem (SshFrameProof.tla) re-checked by tlapm on every run. A threads leg audits SSH-1 targets concurrently under schedule perturbation and under SshSched plans at source-line granularity (a worker preempted anywhere in the tool's code)."),
+              "The framing arithmetic for every payload length (not only 0..4096) is a TLAPS theorem (SshFrameProof.tla) re-checked by tlapm on every run. A threads leg audits SSH-1 targets concurrently under schedule perturbation and under SshSched plans at source-line granularity (a worker preempted anywhere in the tool's code). Connections that follow one another on the same socket object start clean (unread bytes, half-written messages); the denial-of-service mode is run under the fake network and every packet of its flood decoded; SshStream has an Again step (EAGAIN between segments)."),
         design='8 C10, 9, 14.2', note='TLC; the independent codec harness/wire.py; SSH-1 CRC-32 values come from zlib (outside TLA+)', technique='TLC-checked reference codec; enumerated value/bytes pairs replayed into the buffer classes and packet framing'),
     'C16': dict(category='model_checking',
         text=("SshBanner.tla models the peer's identification exchange (other lines, banner built from parts, CR LF / LF) and the tool's reader (split, skip blank, header, "
@@ -137,7 +137,7 @@ CHECKS.update({
     'C17': dict(category='model_checking',
         text=("The live tables are exported as JSON on every run and SshTablesCheck.tla states their cross-relations (names known, hardening policies free of failed "
               "algorithms, shape, broken-primitive rule) as invariants TLC evaluates over every entry (exhaustive over the data); each built-in server policy's peer is "
-              "additionally audited by the real CLI and must show no failure."),
+              "additionally audited by the real CLI and must show no failure. The tables are also checked after use: branded entries keep a failure after their sizes were measured, a conformant server audited after a weak one shows no failure, SSH-1 reports name only names of the SSH-1 table."),
         design='8 C17, 9', note='the extractor (harness/extract_tables.py) copies the tables of the working tree; TLC is a quantifier engine over that data', technique='TLC evaluation of table invariants over the extracted data (exhaustive)'),
     'C18': dict(category='model_checking',
         text=("SshTarget.tla defines parsing of every documented spelling with -p as default port, port validation, resolver family and the permitted address order; TLC evaluates "
